@@ -20,7 +20,6 @@ import (
 	"golang.org/x/tools/go/ssa"
 )
 
-type rsGroup struct{}
 
 type Witness struct {
 	Harness  string
